@@ -190,6 +190,14 @@ CASE_LETTERS = '\u023a\u023e\u0250\u0251\u0131\u017f\u212a\u1e9e\u00df'
 
 def odd_messages():
     out = []
+    # three multipart levels: the second lacks its terminating delimiter and its last complete part is a multipart of 40 parts (the table of
+    # parts grows while the level above is still being read)
+    l2 = b'Content-Type: multipart/mixed; boundary="L2"\n\n' + b'--L2\nContent-Type: text/plain\n\np\n' * 300 + b'--L2--\n'
+    for tail in (b'', b'trailing text\n', b'--L1\nContent-Type: text/plain\n\nlast'):
+        l1 = b'Content-Type: multipart/mixed; boundary="L1"\n\n--L1\nContent-Type: text/plain\n\nfirst\n--L1\n' + l2 + tail
+        out.append(b'To: a@b\nSubject: needle\nContent-Type: multipart/mixed; boundary="T"\n\n--T\n' + l1 + b'--T--\n')
+        l1b = b'Content-Type: multipart/mixed; boundary="L1"\n\n--L1\n' + l2 + (tail if tail.endswith(b'\n') or not tail else tail + b'\n')
+        out.append(b'To: a@b\nSubject: needle\nContent-Type: multipart/mixed; boundary="T"\n\n--T\n' + l1b + b'--T--\n')
     for n in (1, 3, 7, 8, 12, 15, 16, 24, 31):
         v = ''.join(CASE_LETTERS[(i + n) % len(CASE_LETTERS)] for i in range(n)).encode()
         out.append(b'Subject: %s\nX-Id: case%d\n\n%s\n' % (v, n, v[::1]))
